@@ -18,6 +18,7 @@ type (
 	EphemeralWalletStore struct {
 		mu          sync.Mutex
 		tip         types.ChainIndex
+		applied     []types.ChainIndex // indices applied so far; reverting one makes its predecessor the tip
 		utxos       map[types.SiacoinOutputID]types.SiacoinElement
 		events      []wallet.Event
 		broadcasted []wallet.BroadcastedSet
@@ -65,6 +66,7 @@ func (et *ephemeralWalletUpdateTxn) WalletApplyIndex(index types.ChainIndex, cre
 
 	// add events
 	et.store.events = append(et.store.events, events...)
+	et.store.applied = append(et.store.applied, index)
 	et.store.tip = index
 	return nil
 }
@@ -89,7 +91,15 @@ func (et *ephemeralWalletUpdateTxn) WalletRevertIndex(index types.ChainIndex, re
 	for _, se := range unspent {
 		et.store.utxos[se.ID] = se.Copy()
 	}
-	et.store.tip = index
+	// the wallet is now at the index that was applied before the reverted
+	// one, which is where chain.Manager.UpdatesSince must continue from
+	if n := len(et.store.applied); n > 0 && et.store.applied[n-1] == index {
+		et.store.applied = et.store.applied[:n-1]
+	}
+	et.store.tip = types.ChainIndex{}
+	if n := len(et.store.applied); n > 0 {
+		et.store.tip = et.store.applied[n-1]
+	}
 	return nil
 }
 
